@@ -324,7 +324,7 @@ impl Property for C12 {
             })
         });
         let texts = texts.chain(edits).chain(head_edits().into_iter().map(Case::Text));
-        let fams = if quick { vec![crate::keys::FamId::Tiny, crate::keys::FamId::Wide] } else { crate::keys::ALL_FAMS.to_vec() };
+        let fams = crate::keys::ALL_FAMS.to_vec();
         let hists = fams.into_iter().flat_map(|f| crate::gen::history::exhaustive(f, 1)).map(Case::Hist);
         let shapes = crate::sigshapes::corpus().iter().map(|r| {
             Case::Text(TextCase { s: format!("enr:{}", crate::refmodel::b64::encode(&r.bytes)), label: format!("sigshape/{}", r.shape) })
